@@ -54,3 +54,18 @@ Definition show_msg (m : msg) : list N :=
   | None => [0]
   | Some (s, f, v) => 1 :: s ++ SEP :: f ++ SEP :: v
   end ++ [END].
+
+(* ---- subunit states (C03, C09, C10) *)
+From Ynca Require Import Model.Subunit.
+
+Definition show_reads (sc : subunit_class) (st : sub_state) : list N :=
+  flat_map (fun f => show_option show_value (read st (f_name f))) (sc_funcs sc).
+
+Definition show_notes (ns : list (text * value)) : list N :=
+  flat_map (fun n => (fst n ++ SEP :: show_value (snd n)) ++ [END]) ns.
+
+Definition show_sub_result (sc : subunit_class) (r : res (sub_state * list (text * value))) : list N :=
+  match r with
+  | Raise => [10; END; END2]
+  | Ok (st, ns) => show_reads sc st ++ [7; END] ++ show_notes ns ++ [END2]
+  end.
